@@ -9,8 +9,10 @@ import (
 
 	"github.com/juev/hledger-lsp/internal/include"
 	"github.com/juev/hledger-lsp/internal/parser"
+	"github.com/juev/hledger-lsp/internal/server"
 	"github.com/juev/hledger-lsp/internal/verifx/bfs"
 	"github.com/juev/hledger-lsp/internal/verifx/core"
+	"github.com/juev/hledger-lsp/internal/verifx/wire"
 )
 
 func init() { core.Register("C11", checkC11) }
@@ -48,7 +50,7 @@ type c11Op struct {
 
 func (o c11Op) String() string {
 	switch o.Kind {
-	case "clear", "limits":
+	case "clear", "limits", "sizelimit":
 		return o.Kind
 	}
 	return fmt.Sprintf("%s(f%d)", o.Kind, o.File)
@@ -66,6 +68,15 @@ func c11Ops(n int) []c11Op {
 		ops = append(ops, c11Op{"loadc", i})
 	}
 	ops = append(ops, c11Op{"clear", 0}, c11Op{"limits", 0})
+	return ops
+}
+
+// c11OpsFor adds the size-limit toggle for worlds that have a file above the low limit.
+func c11OpsFor(w c11World) []c11Op {
+	ops := c11Ops(w.G.N)
+	if w.G.BigFile >= 0 {
+		ops = append(ops, c11Op{"sizelimit", 0})
+	}
 	return ops
 }
 
@@ -134,11 +145,14 @@ func c11Apply(dir string, w c11World, ops []c11Op) (key string, shared, fresh st
 		_ = os.WriteFile(filepath.Join(dir, incName(i)), []byte(w.content(dir, i, 0)), 0o644)
 	}
 	l := include.NewLoader()
-	lowDepth := false
+	lowDepth, lowSize := false, false
 	limits := func(low bool) include.Limits {
 		lim := include.DefaultLimits()
 		if low {
 			lim.MaxIncludeDepth = 2
+		}
+		if lowSize {
+			lim.MaxFileSizeBytes = incBigPad
 		}
 		return lim
 	}
@@ -179,6 +193,10 @@ func c11Apply(dir string, w c11World, ops []c11Op) (key string, shared, fresh st
 		case "limits":
 			lowDepth = !lowDepth
 			l.SetLimits(limits(lowDepth))
+		case "sizelimit":
+			// the size limit drops below / rises above the size of the big file
+			lowSize = !lowSize
+			l.SetLimits(limits(lowDepth))
 		}
 	}
 	ci := l.VerifxCacheIncludes()
@@ -187,7 +205,7 @@ func c11Apply(dir string, w c11World, ops []c11Op) (key string, shared, fresh st
 		ck = append(ck, filepath.Base(p)+"="+strings.Join(inc, ","))
 	}
 	sort.Strings(ck)
-	key = fmt.Sprintf("disk=%v low=%v cache=%v", disk, lowDepth, ck)
+	key = fmt.Sprintf("disk=%v low=%v lowsize=%v cache=%v", disk, lowDepth, lowSize, ck)
 	return
 }
 
@@ -195,6 +213,11 @@ func checkC11(c *core.Ctx) {
 	dir := filepath.Join(c.Scratch, "c11")
 	_ = os.MkdirAll(dir, 0o755)
 	if c.Replay != nil {
+		var sc c11SrvCase
+		if err := jsonUnmarshal(c.Replay, &sc); err == nil && sc.Part == "server" {
+			c11SrvRun(c, filepath.Join(c.Scratch, "c11srv"), sc.Root, sc.Ops)
+			return
+		}
 		var cs c11Case
 		if err := jsonUnmarshal(c.Replay, &cs); err != nil {
 			c.Res.InfraError = "bad replay: " + err.Error()
@@ -206,6 +229,10 @@ func checkC11(c *core.Ctx) {
 		if shared != fresh {
 			c.Violate("replay", "load result independent of history", "shared: "+shared+"\nfresh:  "+fresh, cs)
 		}
+		return
+	}
+	c11ServerHistories(c, filepath.Join(c.Scratch, "c11srv"))
+	if c.Expired() {
 		return
 	}
 	maxEdges, depth := 3, 5
@@ -226,6 +253,12 @@ func checkC11(c *core.Ctx) {
 		if g.nedges() <= maxEdges {
 			for _, br := range broken {
 				worlds = append(worlds, c11World{g, br})
+			}
+			// one file above the low size limit (the "sizelimit" operation toggles the limit)
+			if g.nedges() >= 1 && (g.nedges() <= 2 || c.Thorough()) {
+				gb := g
+				gb.BigFile = 1
+				worlds = append(worlds, c11World{gb, 0})
 			}
 			// non-canonical spellings of include targets (cache keys vs InvalidateFile argument)
 			if g.nedges() >= 1 && (g.nedges() <= 2 || c.Thorough()) {
@@ -263,7 +296,7 @@ func checkC11(c *core.Ctx) {
 		if !c.Mine() {
 			continue
 		}
-		ops := c11Ops(w.G.N)
+		ops := c11OpsFor(w)
 		st := bfs.Search(len(ops), depth, 200000, "init", func(path []int) (string, bool) {
 			seq := make([]c11Op, len(path))
 			for i, p := range path {
@@ -332,4 +365,186 @@ func c11DiffClass(shared, fresh string) string {
 		}
 	}
 	return strings.Join(out, "+") + " differ"
+}
+
+// ---- part B: the server's use of the loader across a history -----------------
+//
+// One server, documents P (includes X) and X. X has two versions that declare
+// different accounts, so the diagnostics published for P tell which version of
+// X an analysis of P saw. After every history P is analysed once more and its
+// diagnostics and a hover are compared with a fresh server that is brought into
+// the same final state (same files on disk, same open documents and editor
+// texts) along the shortest way.
+
+type c11SrvOp struct {
+	Kind string `json:"kind"` // openP closeP touchP openX closeX changeX saveX
+}
+
+type c11SrvCase struct {
+	Part string     `json:"part"` // "server"
+	Root bool       `json:"workspace_root"`
+	Ops  []c11SrvOp `json:"ops"`
+}
+
+const c11P = "include X.journal\n\n2001-01-01 p\n    a:one  1 USD\n    a:two  -1 USD\n"
+
+func c11X(v int) string {
+	if v == 0 {
+		return "account a:one\n\n2001-02-01 x v0\n    a:one  1 USD\n    a:one  -1 USD\n"
+	}
+	return "account a:two\n\n2001-02-01 x v1\n    a:two  1 USD\n    a:two  -1 USD\n"
+}
+
+func c11SrvOps() []c11SrvOp {
+	var out []c11SrvOp
+	for _, k := range []string{"openP", "closeP", "touchP", "openX", "closeX", "changeX", "saveX"} {
+		out = append(out, c11SrvOp{k})
+	}
+	return out
+}
+
+func c11SrvObserve(s *wire.Session, pu string) string {
+	d := s.Client.Last(pu)
+	var codes []string
+	for _, dg := range parseDiags(d) {
+		codes = append(codes, fmt.Sprintf("%s@%d:%s", dg.Code, dg.StartLine, dg.Message))
+	}
+	sort.Strings(codes)
+	h := s.Call("textDocument/hover", wire.DocPos(pu, 3, 6))
+	return "diagnostics=" + strings.Join(codes, ",") + ";hover=" + h.Result
+}
+
+// c11SrvRun replays ops; the key is the state before the probes.
+func c11SrvRun(c *core.Ctx, dir string, root bool, ops []c11SrvOp) (key string, ok bool) {
+	server.VerifxResetGlobals()
+	_ = os.MkdirAll(dir, 0o755)
+	px, xx := filepath.Join(dir, "P.journal"), filepath.Join(dir, "X.journal")
+	_ = os.WriteFile(filepath.Join(dir, "main.journal"), []byte("include P.journal\n"), 0o644)
+	_ = os.WriteFile(px, []byte(c11P), 0o644)
+	_ = os.WriteFile(xx, []byte(c11X(0)), 0o644)
+	pu, xu := wire.URI(px), wire.URI(xx)
+	newSession := func() *wire.Session {
+		s := wire.New()
+		r := ""
+		if root {
+			r = dir
+		}
+		s.Initialize(wire.InitOpts{Root: r})
+		s.Initialized()
+		return s
+	}
+	s := newSession()
+	disk, editor, pOpen := 0, -1, false
+	for _, op := range ops {
+		switch op.Kind {
+		case "openP":
+			if pOpen {
+				return "", false
+			}
+			pOpen = true
+			s.DidOpen(pu, c11P)
+		case "closeP":
+			if !pOpen {
+				return "", false
+			}
+			pOpen = false
+			s.DidClose(pu)
+		case "touchP":
+			if !pOpen {
+				return "", false
+			}
+			s.DidChangeFull(pu, c11P, 2)
+		case "openX":
+			if editor >= 0 {
+				return "", false
+			}
+			editor = disk
+			s.DidOpen(xu, c11X(disk))
+		case "closeX":
+			if editor < 0 {
+				return "", false
+			}
+			editor = -1
+			s.DidClose(xu)
+		case "changeX":
+			if editor < 0 {
+				return "", false
+			}
+			editor = 1 - editor
+			s.DidChangeFull(xu, c11X(editor), 2)
+		case "saveX":
+			if editor < 0 || editor == disk {
+				return "", false
+			}
+			disk = editor
+			_ = os.WriteFile(xx, []byte(c11X(disk)), 0o644)
+			s.DidSave(xu)
+		}
+	}
+	key = fmt.Sprintf("disk=%d editor=%d pOpen=%v\n%s\n%s", disk, editor, pOpen, s.Srv.VerifxDump(), s.Srv.VerifxCachesDump())
+	key = strings.ReplaceAll(key, dir, "")
+	// probes: P analysed once more
+	if !pOpen {
+		s.DidOpen(pu, c11P)
+	} else {
+		s.DidChangeFull(pu, c11P, 3)
+	}
+	got := c11SrvObserve(s, pu)
+	// fresh server brought into the same final state
+	f := newSession()
+	if editor >= 0 {
+		f.DidOpen(xu, c11X(disk))
+		if editor != disk {
+			f.DidChangeFull(xu, c11X(editor), 2)
+		}
+	}
+	f.DidOpen(pu, c11P)
+	want := c11SrvObserve(f, pu)
+	c.Res.Evaluations++
+	if len(ops) >= 3 {
+		c.Res.Nontrivial++
+	}
+	if got != want {
+		var kinds []string
+		for _, o := range ops {
+			kinds = append(kinds, o.Kind)
+		}
+		ws := "no workspace"
+		if root {
+			ws = "workspace root"
+		}
+		part := "diagnostics"
+		if strings.SplitN(got, ";hover=", 2)[0] == strings.SplitN(want, ";hover=", 2)[0] {
+			part = "hover"
+		}
+		c.Violate(fmt.Sprintf("server history|%s|%s|%s", ws, part, strings.Join(kinds, ">")), "load result independent of cache history (server)",
+			fmt.Sprintf("%s, history %v, then P analysed again (X on disk: version %d, X in the editor: %d)\nserver:       %s\nfresh server: %s", ws, kinds, disk, editor, firstN(got, 900), firstN(want, 900)),
+			c11SrvCase{"server", root, ops})
+	}
+	return key, true
+}
+
+func c11ServerHistories(c *core.Ctx, dir string) {
+	depth := 5
+	if c.Thorough() {
+		depth = 7
+	}
+	ops := c11SrvOps()
+	c.Bound("server histories", fmt.Sprintf("BFS depth %d over %d operations (open/close/re-analyse P; open/close/change/save X) x workspace root on/off, P analysed again and compared with a fresh server in the same final state", depth, len(ops)))
+	for ri, root := range []bool{false, true} {
+		if !c.MineKey(int64(100 + ri)) {
+			continue
+		}
+		root := root
+		st := bfs.Search(len(ops), depth, 100000, "init", func(path []int) (string, bool) {
+			seq := make([]c11SrvOp, len(path))
+			for i, p := range path {
+				seq[i] = ops[p]
+			}
+			return c11SrvRun(c, dir, root, seq)
+		}, c.Expired)
+		c.Res.States += st.States
+		c.Res.Transitions += st.Transitions
+		c.Res.Traces += st.Transitions
+	}
 }
